@@ -111,7 +111,7 @@ def run(prop, seed, budget, ctx):
     from apischema import deserialize, serialize, ValidationError, settings
     from apischema.json_schema import deserialization_schema, serialization_schema, JsonSchemaVersion
     rnd = random.Random(seed * 7919 + sum(map(ord, prop))); pool = Pool(); g = Gen(rnd, pool, None)
-    g.kinds = g.kinds + ["depreq"]          # dependent_required classes: outside the Lean model (K skipped), inside the P checks
+    g.kinds = g.kinds + ["depreq", "aggregate"]          # dependent_required / aggregate-field classes: outside the Lean model (K skipped), inside the P checks
     n_types, per = {"C06": (250, 8), "C07": (250, 8), "C18": (250, 6)}[prop]
     types = [g.ty(3) for _ in range(n_types * budget)]
     if prop == "C07":
@@ -175,7 +175,7 @@ def run(prop, seed, budget, ctx):
         if mo is not None and "error" in mo:
             failures.append(pack(t, kind="K", why="driver error " + str(mo["error"])[:100], k_ok=False)); continue
         if prop == "C18" and extra in ("OPEN_API_3_0", "OPEN_API_3_1"): mo = None      # no Lean model of the OpenAPI rewrite yet
-        if "depreq" in t.features(): mo = None
+        if {"depreq", "aggregate"} & t.features(): mo = None
         if mo is not None and not has_refs:
             kcmp += 1
             k_ok = canon_schema(py_proto(real)) == canon_schema(mo["schema"])
@@ -299,6 +299,10 @@ KF = {
     # the serialization schema keeps `dependentRequired` although exclude_none / exclude_defaults can omit the dependent key
     "KF44": lambda c: _why(c, "serialized-value-does-not-validate") and _f(c, "depreq") and c.get("only_dependent_required") is True
                       and (c["so"]["exclude_none"] or c["so"]["exclude_defaults"]),
+    # flattened field: the schema is an allOf of two members that each carry additionalProperties: false, so each rejects the keys of the other
+    "KF09": lambda c: "aggregate-flatten" in c["features"] and (_why(c, "accepted-by-deserialize") or _why(c, "serialized-value-does-not-validate")),
+    # draft-07 output of a class with a flattened field keeps `unevaluatedProperties` (a 2019-09 keyword)
+    "KF46": lambda c: "aggregate-flatten" in c["features"] and c.get("version") == "DRAFT_7" and c["why"][0] == "keyword-outside-the-target-vocabulary:unevaluatedProperties",
     # constraints on the float image of a large integer (checked after float(int) has rounded)
     "KF41": lambda c: c.get("k_ok") is not False and _f(c, "cfloat") and has_big_int(c["d"]),
 }
